@@ -168,7 +168,7 @@ def check_guards(ctx, wm: WeaverModel):
                   f"{[[str(g)[:60] for g in e.guard] for e in rs]}", mf.fi.loc(), mf.fi.qualname, f"bounds:{name}")
     # 11 slicing value not a sample
     mf = wm.methods['slice_by_value']
-    SEARCH = ('lib:numpy.where', 'lib:numpy.searchsorted', 'lib:numpy.nonzero', 'lib:numpy.flatnonzero', 'lib:numpy.argwhere', 'index',
+    SEARCH = ('nz', 'lib:numpy.where', 'lib:numpy.searchsorted', 'lib:numpy.nonzero', 'lib:numpy.flatnonzero', 'lib:numpy.argwhere', 'index',
               'lib:numpy.argmax', 'lib:numpy.argmin', 'lib:numpy.isin', 'method:searchsorted', 'method:nonzero')
 
     def data_dependent(v) -> bool:
